@@ -7,7 +7,10 @@ after every processTransaction(): actionList is empty and the router's shapes / 
 model's scene; every displayRoute passes the extracted route_ok on the current scene; its cost equals that of a FRESH router
 on the same scene and (polyline) the extracted reference router's optimum, to 1e-6; an empty transaction returns false and
 leaves every displayRoute bit-identical.  A failing route whose offending raw segments are all degenerate chords is the
-known finding F-b; every other disagreement is a violation (DESIGN 6 F-g - stale routes after a shape moves away - is one)."""
+known finding F-b; every other disagreement is a violation (DESIGN 6 F-g - stale routes after a shape moves away - is one).
+Third round (DESIGN 9.10): "pocket" family = unroutable, then routable (one connector end in a pocket of 3-4 overlapping walls; a later transaction opens it);
+a step at which the exact reference router finds NO obstacle-free path is not judged by route_ok but the placeholder route must equal the fresh router's; the
+degenerate-chord classifier additionally requires that the proved per-shape blocking test does not block the chord (avoid_lib.chords_unblocked)."""
 import os, json, hashlib
 from vlib import common as C
 from checks import avoid_lib as A
@@ -35,6 +38,10 @@ SHARED_CONFIGS = [('shared-poly-pen0-trans', 0, 0, 1), ('shared-poly-pen0-notran
 NOOP_CONFIGS = [('noop-poly-pen0-trans', 0, 0, 1), ('noop-poly-pen0-notrans', 0, 0, 0), ('noop-poly-pen10-trans', 0, 10, 1), ('noop-orth-trans', 1, 10, 1)]
 ADDMOVE_CONFIGS = [('addmove-poly-pen0-trans', 0, 0, 1), ('addmove-orth-trans', 1, 10, 1), ('addmove-poly-pen10-trans', 0, 10, 1), ('addmove-poly-pen0-notrans', 0, 0, 0)]
 ONLY_CONFIGS = [('only-orth-trans', 1, 10, 1), ('only-orth-pen50-trans', 1, 50, 1), ('only-orth-notrans', 1, 10, 0), ('only-poly-pen0-trans', 0, 0, 1)]
+# "pocket" family (checks/avoid_lib.py gen_pocket_history): unroutable, then routable - one endpoint in a pocket enclosed by 3-4 overlapping walls (no route:
+# the router emits the straight line and must retry in every later transaction), then a wall is deleted / moved away / shrunk / slid aside
+POCKET_CONFIGS = [('pocket-poly-pen0-trans', 0, 0, 1), ('pocket-poly-pen0-notrans', 0, 0, 0), ('pocket-poly-pen10-trans', 0, 10, 1),
+                  ('pocket-orth-trans', 1, 10, 1), ('pocket-orth-notrans', 1, 10, 0)]
 CONTAINS_CONFIGS = [('contains-poly-pen0-trans', 0, 0, 1), ('contains-poly-pen0-notrans', 0, 0, 0), ('contains-poly-pen10-trans', 0, 10, 1),
                     ('contains-orth-trans', 1, 10, 1), ('contains-orth-notrans', 1, 10, 0)]
 
@@ -64,6 +71,10 @@ def scene_valid(shapes, conns, generic=True, family=None):
     graph vertices"""
     if family == 'contains':
         return A.contains_scene_valid(shapes, conns, generic)
+    if family == 'pocket':
+        # walls may overlap each other (that is the point of the family); endpoints are never on or in a shape
+        polys = list(shapes.values())
+        return all(s != d and not any(A.inside_closed(P, s) or A.inside_closed(P, d) for P in polys) for (s, d) in conns.values())
     polys = list(shapes.values())
     corners = set(tuple(v) for P in polys for v in P) if family == 'shared' else ()
     bs = [A.bbox(P) for P in polys]
@@ -398,9 +409,18 @@ def evaluate(exe, drv, qdrv, hists, stats, with_model=True, samples=None):
         off = A.parse_chk(ans[qi])
         if off:
             roff = A.parse_chk(ans[qr])
+            if off != [(-1, -1, 0)] and A.parse_route_answer(A.run_driver(drv, [A.q_plain(polys, s, t)])[0]) is None:
+                # no obstacle-free path exists in this scene (exact reference router: NoPath): the property is silent about the route's shape, but
+                # the history must still give what a fresh router gives (libavoid emits the straight line and retries in later transactions)
+                stats['unroutable_steps'] = stats.get('unroutable_steps', 0) + 1
+                if [tuple(q) for q in route] != [tuple(q) for q in froute]:
+                    fails.append(dict(step, kind='cost', what='no obstacle-free path exists in this scene; the incremental router and a fresh router '
+                                      'disagree on the placeholder route', incremental_cost=None, fresh_cost=None, model_optimum=None))
+                continue
+            # known finding F-b only if the code's own per-shape test (as proved) does not block the chord: fewer than two end-point touches
             fails.append(dict(step, kind='route_invalid', what='displayRoute of the incremental router fails route_ok on the current scene',
                               offenders=off, raw_route=raw, raw_offenders=roff,
-                              degenerate=bool(roff) and roff != [(-1, -1, 0)] and all(x[2] == 1 for x in roff)))
+                              degenerate=A.chords_unblocked(drv, polys, raw, roff)))
             continue
         ci = route_cost(route, h['mode'], h['pen'])
         cf = route_cost(froute, h['mode'], h['pen'])
@@ -516,7 +536,15 @@ def report(res, exe, drv, qdrv, fails, stats, do_shrink=True):
                 C.log('shrink failed: %s' % e)
         obj = dict(f)
         obj.pop('hist')
-        obj.update({'config': h['cfg'], 'mode': h['mode'], 'segmentPenalty': h['pen'], 'transactions': h['trans'],
+        if ops != h['ops']:
+            # the step / connector / routes reported are those of the MINIMAL history (the shrink may end on another connector or step)
+            try:
+                f2 = [x for x in evaluate(exe, drv, qdrv, [dict(h, ops=ops)], new_stats(), with_model=False) if x['kind'] == f['kind']]
+                if f2:
+                    obj = dict(f2[0]); obj.pop('hist')
+            except Exception as e:
+                C.log('re-evaluation of the minimal history failed: %s' % e)
+        obj.update({'config': h['cfg'], 'mode': h['mode'], 'segmentPenalty': h['pen'], 'transactions': h['trans'], 'family': h.get('family'),
                     'history': [op_str(o) for o in h['ops']],
                     'minimal_history': [op_str(o) for o in ops],
                     'script': hist_script(ops, h['mode'], h['pen'], h['trans']),
@@ -550,7 +578,7 @@ def corpus_hists():
         if f.startswith('c06_') and f.endswith('.json'):
             j = json.load(open(os.path.join(d, f)))
             out.append(dict(cfg='corpus:' + f, mode=j['mode'], pen=j['segmentPenalty'], trans=j['transactions'], ops=parse_ops(j['history']),
-                            generic=False))
+                            generic=False, family=j.get('family')))
     return out
 
 
@@ -602,6 +630,16 @@ def run(tier):
             for t in tags:
                 stats['contains_variants'][t] = stats['contains_variants'].get(t, 0) + 1
             hists.append(dict(cfg=name, mode=mode, pen=pen, trans=trans, ops=ops, generic=True, family='contains'))
+    for (name, mode, pen, trans) in POCKET_CONFIGS:
+        k = 0
+        while k < (10 if tier == 'quick' else 90):
+            ops, tags = A.gen_pocket_history(rng, rect_only=(mode == 1))
+            if ops is None:
+                continue
+            k += 1
+            for t in tags:
+                stats['directed_variants']['pocket:' + t] = stats['directed_variants'].get('pocket:' + t, 0) + 1
+            hists.append(dict(cfg=name, mode=mode, pen=pen, trans=trans, ops=ops, generic=False, family='pocket'))
     for fam, cfgs, gen, n in (('noop', NOOP_CONFIGS, A.gen_noop_move_history, 10 if tier == 'quick' else 100),
                               ('addmove', ADDMOVE_CONFIGS, A.gen_addmove_history, 8 if tier == 'quick' else 80),
                               ('only', ONLY_CONFIGS, A.gen_homogeneous_history, 14 if tier == 'quick' else 120)):
@@ -630,6 +668,7 @@ def run(tier):
         'op_kind_counts': stats['op_kinds'], 'scene_checks': stats['scene_checks'], 'empty_transaction_checks': stats['noop_checks'],
         'route_comparisons': stats['comparisons'], 'known_degenerate_chord_cases': stats['known_degenerate_chord'],
         'known_selective_reroute_not_flagged_cases': stats.get('known_reroute_silent', 0),
+        'steps_without_any_obstacle_free_path_(placeholder_route_compared_with_fresh_router)': stats.get('unroutable_steps', 0),
         'corpus_histories': stats['corpus'], 'exhaustive': False,
         'directed_families': {'what': 'noop = moves leaving the polygon unchanged (zero / cancelling / same polygon / there and back); addmove = add + moves + '
                                       'relative move of one shape in one transaction; only = transactions of only deletions / only additions / only endpoint changes',
@@ -655,9 +694,12 @@ def replay(path):
     exe = A.harness(); drv = A.driver()
     qdrv = C.ocaml_build('c06', 'C06.v', 'c06_driver.ml', 'c06_model.ml')
     ops = parse_ops(j.get('minimal_history') or j['history'])
-    h = dict(cfg='replay', mode=j['mode'], pen=j['segmentPenalty'], trans=j['transactions'], ops=ops, generic=False,
-             family='shared' if str(j.get('config', '')).startswith('shared') else
-             'contains' if str(j.get('config', '')).startswith('contains') or simulate(ops, j['transactions'], generic=False) is None else None)
+    cfgname = str(j.get('config', ''))
+    fam = j.get('family')
+    if fam is None:
+        fam = 'pocket' if 'pocket' in cfgname else 'shared' if cfgname.startswith('shared') else \
+            'contains' if cfgname.startswith('contains') or simulate(ops, j['transactions'], generic=False) is None else None
+    h = dict(cfg='replay', mode=j['mode'], pen=j['segmentPenalty'], trans=j['transactions'], ops=ops, generic=False, family=fam)
     fails = evaluate(exe, drv, qdrv, [h], new_stats(), True, None)
     for f in fails:
         f.pop('hist', None)
@@ -684,13 +726,16 @@ META = {
                 'histories on one Avoid::Router vs the extracted queue model (scene, connector ends, empty actionList), vs a fresh Router and vs '
                 'the extracted reference router optimum (route cost to 1e-6), route_ok on every route, bit-identical routes over empty transactions. Streams: '
                 'generic, move-heavy, degenerate chord, "contains" (an endpoint starts strictly inside a shape that is then moved / resized / deleted away, moved back, '
-                'or replaced by another shape, followed by a change that recomputes the endpoint\'s visibility) and "shared" (several connectors with exactly coincident endpoints).',
+                'or replaced by another shape, followed by a change that recomputes the endpoint\'s visibility), "shared" (several connectors with exactly coincident endpoints) '
+                'and "pocket" (unroutable, then routable: a connector end enclosed by 3-4 overlapping walls, then a wall deleted / moved away / shrunk / slid aside; transactions on and off, polyline and orthogonal).',
         'design_ref': 'DESIGN.md 5.6'},
     'level_note': 'partial: the refinement theorem covers the whole scene, shapes and connector ends (queue_refines_sequential_full; pin-move '
                   'updates are proved for the generalised update function, the op log has no pin-move op); the clamped reflection estimate is proved a lower '
                   'bound (reflect_lower_bound_clamped); the invisibility-graph bookkeeping (m_blocker, checkAllBlockedEdges) and the '
                   'orthogonal optimum are exercised only through the history-vs-scratch comparison. Known finding F-b (degenerate chord) has its own '
-                  'stream and classifier; F-g (stale routes, fixed in /repo) is kept as corpus regression entries. Trusted: Coq kernel, extraction, '
+                  'stream and classifier (narrowed in round 3: only chords with fewer than two end-point touches, which the proved per-shape test does not block); '
+                  'F-g (stale routes, fixed in /repo) is kept as corpus regression entries. The retry of connectors without a route (m_needs_reroute_flag) is not modelled: seen only through the pocket '
+                  'family, where steps without any obstacle-free path (reference router: NoPath) are compared with the fresh router\'s placeholder route only. Trusted: Coq kernel, extraction, '
                   'drivers, the hand model\'s reading of router.cpp (validated against the implementation on every run).',
     'technique': 'Coq refinement proof of the action queue + three-way history correspondence (incremental / fresh router / extracted model)',
 }
